@@ -307,6 +307,17 @@ def check_case(ctx, case):
             call = lambda: cobj.fit(func, fitrange=[int(min(xo)), int(max(xo))], **kw)  # noqa: E731
         try:
             res = call()
+            if case.get('via_fitlin') and not case['combined'] and not case.get('via_corr') and case['basis'] == 'poly' and case['npar'] == 2:
+                # the straight-line convenience entry point: same problem, same answer (x as a list of floats or as an array)
+                xl = [float(v) for v in x] if case['seed'] % 2 else np.array(x)
+                fl = pe.fits.fit_lin(xl, y, **kw)
+                ctx.count('fit_lin')
+                for a_, b_ in zip(fl, res.fit_parameters):
+                    db_ = {n_: np.asarray(b_.deltas[n_]) for n_ in b_.names if n_ not in b_.covobs}
+                    if len(fl) != 2 or abs(float(a_.value) - float(b_.value)) > 1e-8 * max(1.0, abs(float(b_.value))) or any(
+                            n_ not in a_.deltas or np.max(np.abs(np.asarray(a_.deltas[n_]) - db_[n_])) > 1e-6 * max(np.max(np.abs(db_[n_])), 1e-300) for n_ in db_):
+                        probs.append(('violation', 'fit_lin-differs-from-least_squares', '%r vs %r' % (float(a_.value), float(b_.value))))
+                        break
         except Exception as e:
             if 'Cannot invert correlation matrix' in str(e):
                 # more points than configurations: the estimated correlation matrix is singular and the library refuses
@@ -388,6 +399,7 @@ def gen_case(ctx):
     if case['correlated'] and rng.random() < 0.5:
         case['user_chol'] = 'listed_order' if (combined and rng.random() < 0.5) else 'ok'
     case['via_corr'] = (not combined) and b == 'poly' and rng.random() < 0.4
+    case['via_fitlin'] = (not combined) and b == 'poly' and npar == 2
     if case['via_corr']:
         case['ens'] = case['ens'][:1]       # a correlator needs all timeslices on the same chains
     if case['priors']:
